@@ -33,6 +33,7 @@ CLS_KINDS = {
     "enum": ("enum {n} {{ {n}A }};", False), "using": ("using {n} = int;", False), "ctor": ("K{n}x();", None), "static": ("static int {n};", True),
     "bitfield": ("int {n} : 3;", True), "methbody": ("int {n}() const {{ return 1; }}", False),
 }
+ENUM_KINDS = {"e": ("{n},", True), "eval": ("{n} = 1 + 2,", True), "elast": ("{n}", True), "elastval": ("{n} = 4", True), "eattr": ("{n} [[deprecated]],", True)}
 ARRS = ["above", "above2", "block", "blockml", "detached", "trailing", "plain", "plain_between", "none", "bang", "above_barrier"]
 
 
@@ -115,8 +116,8 @@ def collect_docs(data):
 
 
 def build_pair(ch):
-    ctx = ch.pick(2)  # 0 namespace scope, 1 class body
-    kinds = CLS_KINDS if ctx else NS_KINDS
+    ctx = ch.pick(3)  # 0 namespace scope, 1 class body, 2 enumerator list
+    kinds = [NS_KINDS, CLS_KINDS, ENUM_KINDS][ctx]
     names = sorted(kinds)
     k1 = names[ch.pick(len(names))]
     a1 = ARRS[ch.pick(len(ARRS))]
@@ -126,13 +127,15 @@ def build_pair(ch):
 
 
 def render_pair(ctx, k1, a1, k2, a2):
-    kinds = CLS_KINDS if ctx else NS_KINDS
+    kinds = [NS_KINDS, CLS_KINDS, ENUM_KINDS][ctx]
     d1 = kinds[k1][0].format(n="X1")
     d2 = kinds[k2][0].format(n="X2")
     barrier = "public:" if ctx else "namespace B {} "
     body = arrange(a1, d1, 1, barrier) + arrange(a2, d2, 2, barrier)
-    if ctx:
+    if ctx == 1:
         return "struct KX1x {\n" + body.replace("KX1x", "KX1x").replace("KX2x", "KX1x") + "};\n"
+    if ctx == 2:
+        return "enum EN {\n" + body + "};\n"
     return body
 
 
@@ -140,7 +143,9 @@ def pair_judge(ctx, k1, a1, k2, a2):
     from cxxheaderparser.simple import parse_string
     from cxxheaderparser.errors import CxxParseError
 
-    kinds = CLS_KINDS if ctx else NS_KINDS
+    kinds = [NS_KINDS, CLS_KINDS, ENUM_KINDS][ctx]
+    if ctx == 2 and (k1.startswith("elast") or "above_barrier" in (a1, a2)):
+        return None  # a last enumerator cannot be followed by another one; no barrier construct inside an enumerator list
     src = render_pair(ctx, k1, a1, k2, a2)
     try:
         d = parse_string(src)
@@ -363,7 +368,7 @@ def run(tier):
         chrun.record(ck, rk, "get_doxygen over all token buffers vs the statement's reference", bound=f"<= {kmax} tokens over {len(K_KINDS)} kinds")
         tw = chrun.run(__name__, "h_pair", [(0, 0)], timeout=60, globs=dict(TWIN=True), pool=pool)
         chrun.record(ck, tw, "hand-over reachability twin", expect="refuted")
-        shards = [(c, k) for c in range(2) for k in range(13)]
+        shards = [(c, k) for c in range(3) for k in range(13)]
         rp = chrun.run(__name__, "h_pair", shards, timeout=(200 if tier == "quick" else 900), globs=dict(EXCUSE=excuse), pool=pool)
         chrun.record(ck, rp, "hand-over: all ordered pairs of declaration kinds x arrangements, namespace and class context",
                      bound=f"{len(NS_KINDS)}/{len(CLS_KINDS)} kinds x {len(ARRS)} arrangements, squared")
